@@ -2057,7 +2057,8 @@ class PyCdlib:
                 # The number of sectors to load may be more than the file
                 # holds; the file cannot reach into the data that follows it.
                 following = [extent for extent in extent_to_inode if extent > entry_extent]
-                following.append(self.pvd.space_size)
+                # The last sector of a UDF bridge volume holds an Anchor.
+                following.append(self.pvd.space_size - (1 if self._has_udf else 0))
                 room = (min(following) - entry_extent) * self.logical_block_size
                 if 0 < room < length:
                     length = room
